@@ -1,5 +1,1 @@
 package main
-
-import vc "github.com/formancehq/ledger/internal/verif/vcommon"
-
-func runC04(cfg *vc.Config, rep *vc.Report) {}
